@@ -186,12 +186,30 @@ def fresh_module(src, uid):
 
 
 def drop_module(mod):
+    """forget the trial's module: every cache that is keyed by its classes would otherwise keep the module (classes, parsers,
+    fields) alive - thousands of trials per shard add up to gigabytes"""
     sys.modules.pop(mod.__name__, None)
     try:
         from utype.parser import base as pbase
+        from utype.utils.transform import TypeTransformer
+        from utype.utils import encode as _enc
+        regs = [TypeTransformer.registry] + [r for r in vars(_enc).values() if type(r).__name__ == "TypeRegistry"]
         for v in list(mod.__dict__.values()):
             if isinstance(v, type) or callable(v):
                 pbase.__parsers__.pop(v, None)
+                for r in regs:
+                    try:
+                        r._cache.pop(v, None)
+                    except Exception:
+                        pass
+        mod.__dict__.clear()
+        _S["dropped"] = _S.get("dropped", 0) + 1
+        if _S["dropped"] % 50 == 0:
+            import gc
+            import typing as _t
+            for f in getattr(_t, "_cleanups", ()):
+                f()
+            gc.collect()
     except Exception:
         pass
 
@@ -207,7 +225,22 @@ def strip(o):
     return json.loads(re.sub(r"(A|B|Amt)\d+", r"\1", json.dumps(o)))
 
 
+MEM_LIMIT_MB = 2800   # per shard (16 shards on a 62 GB machine); the trial modules of a long thorough run do not all get freed
+
+
+def _rss_mb():
+    try:
+        with open("/proc/self/statm") as f:
+            return int(f.read().split()[1]) * 4096 / 1e6
+    except Exception:
+        return 0
+
+
 def run_case(case, ctx):
+    if _rss_mb() > MEM_LIMIT_MB:
+        ctx.count("cases_skipped_by_the_memory_guard")
+        ctx.skip("memory guard (shard above %d MB)" % MEM_LIMIT_MB)
+        return
     sched = _S.get("sched")
     if sched is None:
         ctx.inconclusive_case("sys.monitoring unavailable")
